@@ -540,6 +540,7 @@ def check_C07(tier):
     for f in fams:
         s.add_family(f, variant=core.SEED % 4, label="1-D packed")
     s.finish()
+    metamorphic_arith(chk, 150 if tier == "quick" else 3000)
     chk.cov["rule"] = ("TLC enumerates every lattice point (floats k/2, k=-4..4; integers -2..2; the missing cell) for n inputs and every assignment of "
                        "element kinds (int/float) to the inputs, and evaluates Sum, Multiply, Minimum, Maximum, Mean, WeightedSum/WeightedMean over a weight lattice, "
                        "AMinusB, ADividedByB, Copy and the error entries (weight count, empty inputs, mixed shapes) with EEMSOps.Sem, checking order invariance and the "
@@ -549,6 +550,76 @@ def check_C07(tier):
     chk.assumptions += ["float results within 1e-9 relative of a rational with denominator <= 1 000 000 are identified with it",
                         "only mathematical values are compared (result dtype is unspecified)"]
     return chk.finish()
+
+
+def metamorphic_arith(chk, rounds):
+    """off-lattice, 1-5 inputs of mixed element kinds: the commutative commands against an independent evaluation with Python
+    numbers (exact for ints, 1e-9 relative for floats), in the given and in a shuffled order"""
+    np = lib()["__numpy__"]
+    rng = random.Random(core.SEED + 71)
+    for it in range(rounds):
+        n = rng.randint(1, 5)
+        size = rng.randint(1, 6)
+        arrs, kinds = [], []
+        for k in range(n):
+            kind = rng.choice("if")
+            vals = [rng.randint(-50, 50) if kind == "i" else rng.uniform(-50, 50) for _ in range(size)]
+            arrs.append(np.ma.array(vals, mask=[rng.random() < 0.15 for _ in range(size)], dtype="int64" if kind == "i" else "float64"))
+            kinds.append(kind)
+        perm = list(range(n))
+        rng.shuffle(perm)
+        w = [rng.choice([1, 2, -1, 0.5, 3, 0.25]) for _ in range(n)]
+
+        def ref(fn):
+            out = []
+            for j in range(size):
+                if any(np.ma.getmaskarray(a)[j] for a in arrs):
+                    out.append(None)
+                else:
+                    xs = [a.data[j].item() for a in arrs]
+                    try:
+                        out.append(fn(xs))
+                    except ZeroDivisionError:
+                        out.append(None)
+            return out
+
+        from functools import reduce
+        import operator
+        jobs = [("Sum", [], lambda xs: sum(xs)), ("Multiply", [], lambda xs: reduce(operator.mul, xs)), ("Minimum", [], min), ("Maximum", [], max),
+                ("Mean", [], lambda xs: sum(xs) / len(xs)),
+                ("WeightedSum", [["Weights", [snapw(x) for x in w]]], lambda xs: sum(a * b for a, b in zip(xs, w))),
+                ("WeightedMean", [["Weights", [snapw(x) for x in w]]], lambda xs: sum(a * b for a, b in zip(xs, w)) / sum(w))]
+        for cmd, params, fn in jobs:
+            want = ref(fn)
+            for order in (list(range(n)), perm):
+                p2 = params
+                if params:
+                    p2 = [["Weights", [snapw(w[i]) for i in order]]]
+                res = execute(cmd, p2, [arrs[i].copy() for i in order])
+                chk.cov["evaluations"] += 1
+                bad = None
+                if res[0] != "ok":
+                    bad = "raised %s" % res[0]
+                else:
+                    m = np.ma.getmaskarray(res[1])
+                    d = np.ma.getdata(res[1])
+                    for j in range(size):
+                        if (want[j] is None) != bool(m[j]):
+                            bad = "missing cells differ at %d" % j
+                            break
+                        if want[j] is not None and abs(float(d[j]) - want[j]) > 1e-9 * max(1.0, abs(want[j])):
+                            bad = "value %r, expected %r at %d" % (float(d[j]), want[j], j)
+                            break
+                if bad:
+                    chk.finding("C07:%s:Metamorphic" % cmd, "%s on %d inputs of kinds %s in order %s: %s" % (cmd, n, "".join(kinds), order, bad),
+                                {"arrays": [[None if mm else vv.item() for vv, mm in zip(a.data, np.ma.getmaskarray(a))] for a in arrs], "kinds": kinds,
+                                 "weights": w, "order": order})
+                    break
+
+
+def snapw(x):
+    fr = Fraction(x).limit_denominator(100)
+    return [fr.numerator, fr.denominator]
 
 
 def check_C08(tier):
